@@ -2,7 +2,7 @@ SPECIFICATION Spec
 CONSTANTS
   Size = 6
   MinBlock = 1
-  Readers = {"a"}
+  Readers = {0}
   RoundMod = 4
   Fix = {}
   Record = FALSE
